@@ -25,10 +25,12 @@ P = {
          "the end-to-end binding theorem is given for server key + sealed identities (C06_envelope_binds) up to an exhibited HMAC collision"),
  "C06": ("theorems: reported key = setup key; envelope binds server key and identities, substituted static key => InvalidLogin or an exhibited HMAC collision",
          "concrete group laws are hypotheses"),
- "C07": ("PARTIAL: pairwise matching theorems, whatever the routing - an accepted response carrying an honest server MAC has that session's transcript "
-         "(so the session consumed this client's request; context and identities agree), an accepted finalization has the accepting session's transcript, "
-         "keys agree within a matched session - or an HMAC/hash collision is exhibited; exhaustive routing battery with the matched-conversation oracle",
-         "the bookkeeping induction over histories and key distinctness (a freshness event) are not proved; decided by the battery + cross-check"),
+ "C07": ("theorems: an invariant over ALL histories of a world in which a network adversary chooses every delivered message and the order of all steps "
+         "(induction over the operation list, shared tape): in every reachable world a completed client session that accepted a response carrying an honest "
+         "server session's MAC has that session's transcript (the session consumed this client's request; context agrees; keys agree), a completed server "
+         "session accepted exactly the MAC over its own transcript, equal session keys force equal nonces - or an HMAC/hash collision is exhibited; "
+         "exhaustive routing battery with the matched-conversation oracle",
+         "rejection of responses whose MAC no honest session produced is unforgeability (C04 gap), covered by the batteries; concrete group laws are hypotheses"),
  "C08": ("theorems: same length/structure, same evaluation function, fake record = (tape masking key, zero envelope, fake key), fields from fresh tape ranges, "
          "no other finalization accepted; battery incl. fake-state freshness",
          "client InvalidLogin on a fake response rests on a BadGuess event; validated by the battery"),
